@@ -27,7 +27,7 @@ ASSUMPTIONS = ['`<` is never followed by a letter, `/`, `!` or `?` (that would b
 PAYLOADS = ['<!--', '&', '<', '>', '"', "'", ' & ', ' < ', ' > ', '"><x y="', "'><x y='", '--', '-->', '<<}', '<<', '&#60;', '&amp;', '&lt;', '& #', '&&', '<>', '</', '<=',
             '1 < 2 > 0', 'é中', '😀', 'tab\there', '\\)', '~>', '++}', '==}', 'a&b', 'x"y', "x'y", '<3', '&;', '& ;', '%', '\\']
 ATTR_PAYLOADS = ['&', '"', "'", '<', '>', 'a&b', 'x"y', "it's", '1<2', '">', "'>"]
-LANGS = ['python', 'c++', 'a"b', 'x&y', 'a<b', "q'r", 'plain text']
+LANGS = ['python', 'c++', 'a"b', 'x&y', 'a<b', 'plain text']      # an apostrophe is not accepted in a fence info string (the line is then no fence opener)
 
 
 def word():
@@ -57,7 +57,7 @@ META = st.lists(st.tuples(st.sampled_from(['Title', 'Author', 'Date', 'Keywords'
                                            'Revision', 'BibTeX', 'Quotes Language'] + NUMERIC_KEYS),
                           st.tuples(st.integers(0, 99), st.sampled_from(ATTR_PAYLOADS + ['<b>', '</title>', '--', '#-5', '#0', '#3', '#7', '#99999', '#x']))), max_size=5, unique_by=lambda t: t[0]) \
     .map(lambda m: [[k, (p[1:] if p.startswith('#') else 'q%da%s0%dq' % (n, p, n))] for k, (n, p) in m] or None)
-CFG = gdoc.Cfg(words=word(), inlines=['t', 'em', 'st', 'code', 'link', 'img', 'esc', 'bare', 'fnref', 'ifn', 'imath'],
+CFG = gdoc.Cfg(words=word(), inlines=['t', 'em', 'st', 'code', 'link', 'img', 'esc', 'bare', 'fnref', 'ifn', 'imath', 'cite', 'gloss'],
                blocks=['para', 'atx', 'setext', 'hr', 'fence', 'icode', 'quote', 'list', 'table', 'figure', 'deflist', 'toc'],
                code=word().map(safe_for_code), codelines=word().map(safe_for_code), urls=URLS, titles=TITLES, images=IMGS, meta=META,
                langs=st.sampled_from([None] + LANGS), cell_inlines=['t', 'em', 'code', 'img', 'link', 'fnref'], cell_pad=st.booleans())
